@@ -147,6 +147,13 @@ pub fn c12(cx: &RunCtx) {
     // every function name and alias — also called with no argument — as the left factor, the right partner and
     // in the middle of an implicit product (the per-name family), judged by the reference
     crate::fam::per_name_all(cx, &[Kind::Value, Kind::MalformedOk, Kind::WellFormedErr]);
+    let d = if cx.tier == Tier::Quick { 4 } else { 5 };
+    let k = [Kind::Value, Kind::MalformedOk, Kind::WellFormedErr];
+    crate::checks::tok_rotating::<F64>(cx, d, &k);
+    crate::checks::tok_rotating::<I64>(cx, d, &k);
+    crate::checks::tok_rotating::<Dec>(cx, d, &k);
+    crate::checks::tok_rotating::<Cpx>(cx, d, &k);
+    crate::checks::tok_rotating::<Num>(cx, d, &k);
 }
 
 // ---------------------------------------------------------------- C13
